@@ -96,7 +96,7 @@ func runC06(c *Ctx) {
 	root := NewRng(c.Seed).Fork(6)
 	parallel(nWS, 14, func(i int) {
 		r := root.Fork(uint64(i))
-		sw := GenScopeWS(r, ScopeCfg{JoinPct: -1})
+		sw := GenScopeWS(r, ScopeCfg{JoinPct: -1, GluePct: -1})
 		c.Eval(1)
 		checkC06WS(c, sw, fmt.Sprintf("c06w%d", i))
 		if i < 1 {
